@@ -32,6 +32,31 @@ pub fn eval_one(v: &Value) -> Value {
             json!(a.append(&s("c")).to_string())
         }
         "parse" => json!(s("a").parse::<Apath>().is_ok() as u8),
+        "matrix" => {
+            // all ordered pairs (i, j) of the given strings, row-major:
+            // code = cmp * 2 + is_prefix_of(i, j); then one validity bit per string
+            let paths: Vec<String> = v
+                .get("paths")
+                .and_then(Value::as_array)
+                .map(|a| a.iter().filter_map(|x| x.as_str().map(String::from)).collect())
+                .unwrap_or_default();
+            let aps: Vec<Apath> = paths.iter().map(|p| apath_unchecked(p)).collect();
+            let lo = v.get("row_lo").and_then(Value::as_u64).unwrap_or(0) as usize;
+            let hi = v.get("row_hi").and_then(Value::as_u64).map(|x| x as usize).unwrap_or(aps.len());
+            let mut codes = Vec::with_capacity((hi - lo) * aps.len());
+            for a in &aps[lo..hi] {
+                for b in &aps {
+                    let c = match a.cmp(b) {
+                        Ordering::Less => 0u8,
+                        Ordering::Equal => 1,
+                        Ordering::Greater => 2,
+                    };
+                    codes.push(c * 2 + a.is_prefix_of(b) as u8);
+                }
+            }
+            let valid: Vec<u8> = paths.iter().map(|p| Apath::is_valid(p) as u8).collect();
+            json!({"codes": codes, "valid": valid})
+        }
         "excl" => {
             let pats: Vec<String> = v
                 .get("pats")
